@@ -205,11 +205,43 @@ def _sorted_by_line(errs):
   return lines == sorted(lines)
 
 
+class _Filler:
+  pass
+
+
+_KEEP = []
+_STRIDE = {"fresh-fwd": 2, "reuse-rev": 3, "reuse-rot": 5, "fresh-rev": 7, "fresh-rot": 4, "reuse-fwd": 6}
+
+
+def _punch_holes(stride, k):
+  """Leaves freed blocks of the common size classes behind, in a pattern that differs per configuration.
+
+  Object identities (addresses) order id-keyed sets; blocks freed by earlier work are reused
+  last-in-first-out, so the holes decide the relative addresses of the objects the next analysis
+  creates.  This makes 'which other work the process did before' vary between configurations in the
+  one respect that a set ordered by id() can observe.
+  """
+  del _KEEP[:]
+  objs = []
+  for i in range(600 + 37 * (k % 7)):
+    f = _Filler()
+    f.a = i
+    objs.append(f)
+    objs.append({"k": i})
+    objs.append([i, f])
+    objs.append((i, f, None))
+  for i, o in enumerate(objs):
+    if i % stride:
+      _KEEP.append(o)
+  del objs
+
+
 def _chain_job(job):
   """Runs inside a pool worker forked from the import-only state (one worker per job)."""
   name, mode, chunk = job
   opts = pt.options(module_name="m")
   out = {}
+  stride = _STRIDE.get(name.split("#")[0])
   if mode == "cold":
     for i, src in chunk:
       out[i] = vrun.isolated(_one, (src, None, opts))
@@ -218,7 +250,9 @@ def _chain_job(job):
   if mode == "reuse":
     from pytype import load_pytd
     loader = load_pytd.create_loader(opts)
-  for i, src in chunk:
+  for k, (i, src) in enumerate(chunk):
+    if stride:
+      _punch_holes(stride, k)
     out[i] = _one((src, loader, opts))
   return name, out
 
